@@ -2,6 +2,7 @@ package file
 
 import (
 	"context"
+	"errors"
 	"io"
 	"sync"
 
@@ -181,17 +182,23 @@ func (s *shardNodeReader) Read(p []byte) (int, error) {
 }
 
 func (s *shardNodeReader) Seek(offset int64, whence int) (int64, error) {
+	target := s.offset
+	switch whence {
+	case io.SeekStart:
+		target = offset
+	case io.SeekCurrent:
+		target += offset
+	case io.SeekEnd:
+		target = s.length() + offset
+	}
+	if target < 0 {
+		// leave the reader where it was, as io.Seeker asks
+		return s.offset, errors.New("unixfs file: seek to a negative position")
+	}
 	if s.rdr != nil {
 		s.rdr = nil
 	}
-	switch whence {
-	case io.SeekStart:
-		s.offset = offset
-	case io.SeekCurrent:
-		s.offset += offset
-	case io.SeekEnd:
-		s.offset = s.length() + offset
-	}
+	s.offset = target
 	return s.offset, nil
 }
 
